@@ -636,12 +636,27 @@ func genC06(r *simrt.Rand, tier string, idx uint64) *Plan {
 	if big > 0 {
 		big = 1
 	}
+	racing := idx%2 == 1
+	if racing {
+		// failing calls whose caller gives up (context deadline) at the very instant the error
+		// response arrives: the abandoned call's completion must not land on a neighbour
+		p.Net.MaxLatency = 0
+	}
 	nclients := 1 + r.Intn(4)
 	for c := 0; c < nclients; c++ {
 		cp := ClientPlan{Conn: r.Intn(len(p.Conns))}
 		n := 2 + r.Intn(10)
 		for i := 0; i < n; i++ {
 			op := genCallOp(r, &big)
+			if racing && r.Chance(1, 2) {
+				d := 50 + r.Intn(1500)
+				op.Kind, op.Bad = "ctx", ""
+				op.Flags = FlFail | FlSlow
+				op.Arg = uint32(d) // handler sleeps d µs, then fails with an error text of length d
+				op.Timeout = d + []int{0, 0, 0, -1, 1}[r.Intn(5)]
+				cp.Ops = append(cp.Ops, op)
+				continue
+			}
 			switch r.Intn(9) {
 			case 0, 1, 2:
 				op.Flags |= FlFail
@@ -713,7 +728,9 @@ func checkC06(w *World, run *simrt.Run) {
 			w.Violate("C06.error-text-unstable", "error-text-changed-later:"+w.P.Header, fmt.Sprintf("%s: error text read %q at return and %q at end of run", descCall(c), clip(c.Err), clip(c.ErrAtEnd)))
 		}
 		if c.Bad == "encode" {
-			if c.NumCallsAfter != c.NumCallsBefore && c.Form == "call" && c.Alone {
+			// (judged when nothing was outstanding before: a call abandoned by its context stays
+			// counted until its response arrives, which may happen meanwhile)
+			if c.NumCallsAfter != c.NumCallsBefore && c.NumCallsBefore == 0 && c.Form == "call" && c.Alone {
 				w.Violate("C06.residue", "encode-failure-leaves-residue", fmt.Sprintf("%s: NumCalls %d before, %d after the failed encode", descCall(c), c.NumCallsBefore, c.NumCallsAfter))
 			}
 			continue
